@@ -63,7 +63,7 @@ def run(ctx):
                        'fallocate with FORCE_INIT but without ZERO_BLOCKS leaves the content of newly mapped blocks unspecified',
                        'library errors ENOSPC/BLOCK_ALLOC_FAIL/FILE_TOO_BIG/... are legal outcomes; the affected range becomes unknown in the model']
     rcheck.replay_tier(ctx, ex, env=env)
-    n = int((400 if ctx.tier == 'quick' else 15000) * ctx.scale)
+    n = int((400 if ctx.tier == 'quick' else 6000) * ctx.scale)
     res = rc.run_harness(ex['c09_file'], ctx.seed, 16, n, 200, known_tags=rcheck.known_tags(ctx), env=env)
     ctx.res.merge(res)
 
